@@ -108,7 +108,12 @@ PROPS = {
                       "for members re-expressed in other offsets/representations, points 1 s either side, before the first and after the last.",
         "drivers": ["c13"],
         "mc": [{"module": "MC_C12.tla", "cfg": "MC_C12.cfg", "may_be_idle": ["ShiftAct"], "coverage": True},
-               {"module": "MC_C12.tla", "cfg": "MC_C12_twin3.cfg", "expect_violation": True}], "expect_ops": ["IterOpen", "IterNext", "Query"],
+               {"module": "MC_C12.tla", "cfg": "MC_C12_twin3.cfg", "expect_violation": True},
+               # beyond the listed properties: min_point / max_point windows as the code implements them (WindowPrefix), and the
+               # docstring's "subset" reading shown not to hold (WindowFilter is violated: a named deviation, see DESIGN 7)
+               {"module": "MC_C12.tla", "cfg": "MC_Win.cfg", "tier": "thorough", "may_be_idle": ["ShiftAct"], "coverage": True},
+               {"module": "MC_C12.tla", "cfg": "MC_Win_filter.cfg", "tier": "thorough", "expect_violation": True}],
+        "expect_ops": ["IterOpen", "IterNext", "Query", "Window"],
         "rule": "one case = one recurrence with ~5 probes per member x 5 query kinds; all cases non-trivial",
         "assumptions": TRUST,
     },
